@@ -332,13 +332,19 @@ class Parser(object):
         self.tags = []
 
     def _build_rule_statement(self, keyword, line):
+        if self.variant not in ("feature", "rule"):
+            # -- CASE: parse_scenario(), parse_steps(), ...
+            msg = self.diagnose_rule_usage_error()
+            raise ParserError(msg, self.line, self.filename, line)
         name = line[len(keyword) + 1:].strip()
         rule = model.Rule(self.filename, self.line, keyword, name,
                           tags=self.tags)
         self.rule = rule
         self.scenario_container = rule
         self.statement = rule
-        self.feature.add_rule(self.statement)
+        if self.feature:
+            # -- NOTE: No feature exists if a rule is parsed on its own (parse_rule).
+            self.feature.add_rule(self.statement)
         # -- RESET STATE:
         self.tags = []
 
@@ -351,6 +357,9 @@ class Parser(object):
                 # -- HINT: Rule may have default background w/o steps.
                 msg = u"Second Background (can have only one)"
                 raise ParserError(msg, self.line, self.filename, line)
+        if not self.scenario_container:
+            msg = u"Background should not be used here"
+            raise ParserError(msg, self.line, self.filename, line)
         name = line[len(keyword) + 1:].strip()
         background = model.Background(self.filename, self.line, keyword, name)
         self.scenario_container.add_background(background)
@@ -374,7 +383,8 @@ class Parser(object):
         template = model.ScenarioOutline(self.filename, self.line, keyword, name,
                                          tags=self.tags)
         self.statement = template
-        self.scenario_container.add_scenario(template)
+        if self.scenario_container:
+            self.scenario_container.add_scenario(template)
 
         # -- RESET STATE:
         self.tags = []
@@ -620,6 +630,10 @@ class Parser(object):
             self.state = State.BACKGROUND
             return True
 
+        if not self.rule:
+            # -- CASE: parse_rule() with text that does not start with a Rule.
+            msg = u"Rule keyword expected"
+            raise ParserError(msg, self.line, self.filename, line)
         self.rule.description.append(line)
         return True
 
@@ -640,6 +654,10 @@ class Parser(object):
         step = self.parse_step(line)
         if step:
             # -- FIRST STEP DETECTED: End collection of description-part.
+            if not self.statement:
+                # -- CASE: parse_scenario() with text that does not start with a Scenario.
+                msg = u"Scenario keyword expected"
+                raise ParserError(msg, self.line, self.filename, line)
             self.state = State.STEPS
             self.statement.steps.append(step)
             return True
@@ -654,6 +672,10 @@ class Parser(object):
         # -- OTHERWISE: Add description line.
         # pylint: disable=E1103
         #   E1103   Instance of "Background" has no "description" member...
+        if not self.statement:
+            # -- CASE: parse_scenario() with text that does not start with a Scenario.
+            msg = u"Scenario keyword expected"
+            raise ParserError(msg, self.line, self.filename, line)
         self.statement.description.append(line)
         return True
 
@@ -773,7 +795,7 @@ class Parser(object):
         if not re.match(r"^(|.+)\|$", line):
             logger = logging.getLogger("behave")
             logger.warning(u"Malformed table row at %s: line %i",
-                           self.feature.filename, self.line)
+                           self.filename, self.line)
 
         # -- SUPPORT: Escaped-pipe(s) in Gherkin cell values.
         #    Search for pipe(s) that are not preceded with an escape char.
@@ -807,7 +829,8 @@ class Parser(object):
         :return: List of parsed rule (as :class:`~behave.model:Rule` object).
         """
         self._parse_loop(text, initial_state=State.RULE, filename=filename)
-        rule = self.statement
+        # -- NOTE: self.statement is the last parsed statement (maybe: a scenario).
+        rule = self.rule or self.statement
         return rule
 
 
@@ -841,7 +864,9 @@ class Parser(object):
         :param line:   Line with one/more tags to process.
         :raise ParserError: If syntax error is detected.
         """
-        assert line.startswith("@")
+        if not line.startswith("@"):
+            message = u"tag: %s (line: %s)" % (line.split()[0] if line.split() else u"", line)
+            raise ParserError(message, max(self.line, 1), self.filename)
         tags = []
         for word in line.split():
             if word.startswith("@"):
@@ -850,8 +875,9 @@ class Parser(object):
                 break   # -- COMMENT: Skip rest of line.
             else:
                 # -- BAD-TAG: Abort here.
+                # NOTE: Stand-alone parse_tags() does not count lines (use: first line).
                 message = u"tag: %s (line: %s)" % (word, line)
-                raise ParserError(message, self.line, self.filename)
+                raise ParserError(message, max(self.line, 1), self.filename)
         return tags
 
     def parse_step(self, line):
